@@ -5,6 +5,11 @@ or garbled (a stray quote, an invalid escape, a parenthesis, a bare word, an
 unterminated bracket comment) at positions of known lexical context, singly and
 in pairs; an independent scanner must agree the result is invalid; CMinx must
 then exit non-zero and must not write (or print) a page for that file.
+
+Replay spec: {"text": valid module, "tokens": [[kind, text], ...], "siblings": {name: text},
+ "setting": {"mode": "o"|"stdout", "in_tree": bool, "stale": bool, "skew": bool, "undoc": [10 bools]|null},
+ "plan": {"explicit": [[{"kind","pos","ctx"}, ...]]}            # narrowed replay: exactly the failing fault set
+       | {"kinds": [...], "max_faults", "phase", "pairs", "pair_seed", "read_error": null|"EIO"|"EACCES"|"READ_EIO"|"READ_SHORT"}}
 """
 import os
 import posixpath
